@@ -33,6 +33,7 @@ func init() {
 		p.MultiRefPct = 15
 		p.GopathPct = 12
 		p.SameAliasPct = 10
+		p.DiffAliasPct = 15
 	}), Oracle: oracle.C11}
 	Props["C12"] = &PropDef{Profile: prof("C12", func(p *gen.Profile) {
 		p.AdvNames = true
@@ -62,6 +63,7 @@ func init() {
 		p.MaxMethods = 3
 		p.AliasPct = 40
 		p.SameAliasPct = 30
+		p.DiffAliasPct = 35
 	}), Oracle: oracle.C14}
 	Props["C16"] = &PropDef{Profile: prof("C16", func(p *gen.Profile) { p.OutFilePct = 0; p.MaxParams = 6 }), Mutate: c16Mutate, Oracle: oracle.C16}
 	Props["C19"] = &PropDef{Profile: prof("C19", func(p *gen.Profile) {
